@@ -167,6 +167,9 @@ def run(rep, tier, replay=None):
     prog = facts.load("std")
     run_, oks, errs = decode_paths(prog, 14)
     tracker.alt_passes(rep, tier, oks, lambda: analyse(rep, prog, oks))
+    # "published": what the views hand out is each record's own position under its own address (C14's view rule, decided here as well)
+    from . import c14, c15
+    c14.views_rule(c15._Renamed(rep, "V-"), prog)
     rep.assume("cpr::get_position is replaced by a stub yielding None or an arbitrary position (its content is C05); numeric accuracy and threshold behaviour of f64 are not decided")
     rep.assume("the history-level statement (most recent even and odd report since the last clear) follows from R1+R2 by induction, not mechanised")
     return rep.finish(
